@@ -208,21 +208,27 @@ def cli_case(draw):
             "no_indels": draw(st.integers(0, 4)) == 0, "no_index": draw(st.booleans()),
             "rw": draw(st.integers(0, 5)) == 0}
     sources = []
-    for i in range(draw(st.integers(1, 3))):
-        opt = draw(st.sampled_from(["-a", "-a", "-g", "-b"]))
+    # now and then a family of anchored adapters of one kind and of different lengths (hence different numbers of
+    # allowed errors): the command line puts these into one index unless --no-index is given
+    family = draw(st.sampled_from([None, None, None, None, "prefix", "suffix"]))
+    for i in range(draw(st.integers(1, 3)) if not family else draw(st.integers(2, 3))):
+        opt = draw(st.sampled_from(["-a", "-a", "-g", "-b"])) if not family else {"prefix": "-g", "suffix": "-a"}[family]
+        text = (lambda: _adapter_text(draw)) if not family else \
+            (lambda: draw(st.text(alphabet="ACGT", min_size=5, max_size=20).filter(lambda x: len(x) >= 5)))
         if draw(st.integers(0, 2)) > 0:
-            t = draw(st.sampled_from(CLI_TYPES[opt]))
+            t = draw(st.sampled_from(CLI_TYPES[opt])) if not family else family
             params = draw(_params())
             if t in ("prefix", "suffix"):
                 params.pop("o", None)  # the parser rejects o= on anchored adapters
-            sources.append({"kind": "direct", "opt": opt, "type": t, "seq": _adapter_text(draw), "params": params})
+            sources.append({"kind": "direct", "opt": opt, "type": t, "seq": text(), "params": params})
         else:
-            anchor = draw(st.sampled_from({"-a": ["", "", "$"], "-g": ["", "", "^"], "-b": [""]}[opt]))
+            anchor = draw(st.sampled_from({"-a": ["", "", "$"], "-g": ["", "", "^"], "-b": [""]}[opt])) if not family \
+                else {"prefix": "^", "suffix": "$"}[family]
             params = draw(_params())
             if anchor:
                 params.pop("o", None)
             sources.append({"kind": "file", "opt": opt, "anchor": anchor,
-                            "records": [_adapter_text(draw) for _ in range(draw(st.integers(1, 2)))],
+                            "records": [text() for _ in range(draw(st.integers(1, 2)))],
                             "params": params})
     sc = {"sub": "cli", "glob": glob, "sources": sources, "reads": []}
     specs = effective_specs(sc)
@@ -230,8 +236,23 @@ def cli_case(draw):
         spec = draw(st.sampled_from(specs))
         sn = spec["seq"]
         k = int(spec["e"] * (len(sn) - sn.count("N")))
-        r = draw(st.integers(0, 4))
-        if r == 0:
+        r = draw(st.integers(0, 5))
+        if r == 5:
+            # a near miss: the adapter with one edit more than it tolerates, placed where the type wants it
+            mid = list(sn.replace("N", "A"))
+            for _ in range(k + 1):
+                op = draw(st.sampled_from("dis")) if spec["indels"] else "s"
+                if op == "d" and len(mid) > 1:
+                    del mid[draw(st.integers(0, len(mid) - 1))]
+                elif op == "i":
+                    mid.insert(draw(st.integers(0, len(mid))), draw(st.sampled_from("ACGT")))
+                elif mid:
+                    p = draw(st.integers(0, len(mid) - 1))
+                    mid[p] = draw(st.sampled_from([c for c in "ACGT" if c != mid[p]]))
+            left = draw(st.text(alphabet="ACGT", max_size=4)) if spec["type"] in ("back", "suffix", "niback") else ""
+            right = draw(st.text(alphabet="ACGT", max_size=4)) if spec["type"] in ("front", "prefix", "rightmost") else ""
+            sc["reads"].append(left + "".join(mid) + right)
+        elif r == 0:
             left = draw(st.text(alphabet="ACGT", max_size=6)) if spec["type"] not in ("prefix", "nifront") else ""
             right = draw(st.text(alphabet="ACGT", max_size=6)) if spec["type"] not in ("suffix", "niback") else ""
             sc["reads"].append(left + sn.replace("N", draw(st.sampled_from("ACGT"))) + right)
